@@ -268,6 +268,19 @@ class Calls:
         return out
 
     def _resolve(self, func: FuncInfo, call: ast.Call) -> Target:
+        # (``a = b; b = a`` -- e.g. after inlining a caching helper -- makes the local-callable chain circular)
+        d = getattr(self, '_resolve_depth', 0)
+        if d > 25:
+            t = Target(call)
+            t.unknown = True
+            return t
+        self._resolve_depth = d + 1
+        try:
+            return self._resolve_inner(func, call)
+        finally:
+            self._resolve_depth = d
+
+    def _resolve_inner(self, func: FuncInfo, call: ast.Call) -> Target:
         t = Target(call)
         fn = call.func
         m = func.module
